@@ -9,7 +9,7 @@ namespace Piqp.C07
 
 variable {K : Type}
 variable [Add K] [Sub K] [Mul K] [Div K] [Neg K] [Zero K] [One K] [LT K] [DecidableLT K] [LE K] [DecidableLE K]
-variable [NatCast K] [DecidableEq K] [Inhabited K]
+variable [NatCast K] [BEq K] [Inhabited K]
 
 /-- The step function of the interface has no hidden input: the next state and the outcome are determined by the
     current state of *this* instance and the call (there is no global component in `ApiState`), so two instances
